@@ -3,11 +3,13 @@
 #   builds with patch; full existing suite passes with patch; demo fails with patch; demo passes without.
 # usage: confirm_seed.sh <Cxx> <n>     (reads /tmp/seed/<Cxx>/out/patch<n>.diff, demo<n>_test.go.txt)
 # Result: /verif/seeded/<Cxx>-<n>/{patch.diff,demo_test.go.txt,meta.json}; scratch worktree removed.
-ID=$1; N=$2
-SRC=/tmp/seed/$ID/out
-PIN=1ef84df
-W=/tmp/confirm/$ID-$N
-OUT=/verif/seeded/$ID-$N
+# round 2 (changes written against the repaired tree): SEEDROOT=/tmp/seed2 PIN=<commit> confirm_seed.sh <Cxx> <n> <m>
+#   reads $SEEDROOT/<Cxx>/out/patch<n>.diff and writes /verif/seeded/<Cxx>-<m>/
+ID=$1; N=$2; M=${3:-$2}
+SRC=${SEEDROOT:-/tmp/seed}/$ID/out
+PIN=${PIN:-1ef84df}
+W=/tmp/confirm/$ID-$M
+OUT=/verif/seeded/$ID-$M
 export GOFLAGS=-mod=mod GOPROXY=off
 [ -f $SRC/patch$N.diff ] || { echo "no patch $SRC/patch$N.diff"; exit 2; }
 [ -f $SRC/demo${N}_test.go.txt ] || { echo "no demo"; exit 2; }
@@ -40,12 +42,12 @@ cp $SRC/NOTES.md $OUT/AGENT_NOTES.md 2>/dev/null
 python3 - <<PY
 import json
 ok = "$BUILD"=="ok" and "$SUITE"=="ok" and "$DEMO_WITH"=="fail" and "$DEMO_WITHOUT"=="pass"
-json.dump(dict(id="$ID-$N", property="$ID", pinned_commit="$PIN", files_touched="$FILES".split(), demo_package_dir="$DIR",
+json.dump(dict(id="$ID-$M", property="$ID", pinned_commit="$PIN", files_touched="$FILES".split(), demo_package_dir="$DIR",
   confirmed=ok,
   ran=dict(build_with_patch="go build ./... -> $BUILD", suite_with_patch="go test -vet=off -count=1 ./... -> $SUITE (up to 3 tries, itest is timing-flaky under load)",
            demo_with_patch="go test ./$DIR/ -> $DEMO_WITH", demo_without_patch="go test ./$DIR/ -> $DEMO_WITHOUT"),
   needs_to_manifest="see AGENT_NOTES.md", caught_by=None), open("$OUT/meta.json","w"), indent=1)
-print("$ID-$N", "CONFIRMED" if ok else "NOT-CONFIRMED", "$BUILD $SUITE $DEMO_WITH $DEMO_WITHOUT")
+print("$ID-$M", "CONFIRMED" if ok else "NOT-CONFIRMED", "$BUILD $SUITE $DEMO_WITH $DEMO_WITHOUT")
 PY
 rm -f $OUT/suite.*.txt
 cd /; git -C /repo worktree remove --force $W
